@@ -199,21 +199,27 @@ theorem C28_explicit_id_bad_witnesses :
   intro h
   exact absurd (h (cs ['A','-','B']) (by decide)) (by decide)
 
+/-- the statement for ALL symbols of the compiled grammar, mid-rule nonterminals included; refuted by
+`C28_midrule_bad_witness` -/
+def C28_dup_detect_full : Prop :=
+  ∀ d : Decls, ¬ (allIds d).Nodup → (compileSyms d).errs ≠ []
+
 /-- Duplicate detection (mirror of `resolver.addToken` / `syntaxLoader.collectNonterms` /
-`resolver.addNonterms` as sequenced by `compiler.Compile`, regular and flex-mode lexer sections): whenever two declared symbols (terminals
-incl. `eoi`/`invalid_token`, accepted nonterminals) receive the same ID, an error is reported. -/
-theorem C28_dup_detect (d : Decls) (h : ¬ (declaredIds d).Nodup) : (compileSyms d).errs ≠ [] := by
+`resolver.addNonterms` as sequenced by `compiler.Compile`, regular and flex-mode lexer sections): whenever
+two symbols registered by the resolver — terminals incl. `eoi`/`invalid_token`, and the nonterminals of
+the instantiated and expanded model (template instances, groups, lists, optionals; given as input
+`Decls.final`) — receive the same ID, an error is reported. Partial: the mid-rule action nonterminals
+(`u$1`) are appended without any check. -/
+theorem C28_dup_detect_partial (d : Decls) (h : ¬ (finalIds d).Nodup) : (compileSyms d).errs ≠ [] := by
   have hinv := tokenPhase_inv d
   obtain ⟨new, more, hc, hm⟩ := collect_facts (tokenPhase d) d.nonterms [] (tokenPhase d).errs
-  unfold declaredIds compileSyms at h
+  unfold finalIds compileSyms at h
   unfold compileSyms
   simp only [hc, List.nil_append] at h ⊢
   split
   · next hemp =>
-    have hnil : (tokenPhase d).errs = [] ∧ more = [] := by
-      simpa [List.isEmpty_iff] using hemp
-    obtain ⟨hf, hids⟩ := foldl_addNonterm new (tokenPhase d) hinv
-    have : hasDup (new.foldl addNonterm (tokenPhase d)).errs = true := by
+    obtain ⟨hf, hids⟩ := foldl_addNonterm (finalNts d new) (tokenPhase d) hinv
+    have : hasDup ((finalNts d new).foldl addNonterm (tokenPhase d)).errs = true := by
       rw [hf.dup_iff, hids]
       simpa [idsOf, hemp] using h
     intro he
@@ -222,28 +228,32 @@ theorem C28_dup_detect (d : Decls) (h : ¬ (declaredIds d).Nodup) : (compileSyms
     simp [hasDup] at this
   · next hemp => simpa [List.isEmpty_iff] using hemp
 
-example : ¬ (declaredIds ⟨[(cs ['a','_','b'], []), (cs ['A','_','B'], [])], [], false⟩).Nodup := by decide
+example : ¬ (finalIds ⟨[(cs ['a','_','b'], []), (cs ['A','_','B'], [])], [], false, none, []⟩).Nodup := by
+  decide
+-- template instance `x_B` (ID `XB`) against the terminal `XB`
+example : ¬ (finalIds ⟨[(cs ['X','B'], [])], [cs ['i','n','p','u','t'], cs ['x']], false,
+    some [cs ['i','n','p','u','t'], cs ['x','_','B']], []⟩).Nodup := by decide
 
-/-- …and a "get the same ID" error is reported only when two declared symbols do collide. -/
+/-- …and a "get the same ID" error is reported only when two source-declared symbols or two registered
+symbols do collide. -/
 theorem C28_dup_sound (d : Decls) (h : hasDup (compileSyms d).errs = true) :
-    ¬ (declaredIds d).Nodup := by
+    ¬ (declaredIds d).Nodup ∨ ¬ (finalIds d).Nodup := by
   have hinv := tokenPhase_inv d
   obtain ⟨new, more, hc, hm⟩ := collect_facts (tokenPhase d) d.nonterms [] (tokenPhase d).errs
-  unfold declaredIds
+  unfold declaredIds finalIds
   unfold compileSyms at h ⊢
   simp only [hc, List.nil_append] at h ⊢
   split at h
   · next hemp =>
-    obtain ⟨hf, hids⟩ := foldl_addNonterm new (tokenPhase d) hinv
+    right
+    obtain ⟨hf, hids⟩ := foldl_addNonterm (finalNts d new) (tokenPhase d) hinv
     dsimp only at h
     rw [hf.dup_iff, hids] at h
     simpa [idsOf, hemp] using h
   · next hemp =>
+    left
     dsimp only at h
     rw [hasDup_append, Bool.or_eq_true] at h
-    have happ : ∀ (b : Bool), (if b = true then (⟨(tokenPhase d).syms, (tokenPhase d).errs ++ more, new⟩ : Result)
-        else ⟨(tokenPhase d).syms, (tokenPhase d).errs ++ more, new⟩).accepted = new := by
-      intro b; cases b <;> rfl
     rcases h with h | h
     · intro hn
       exact (hinv.dup_iff.1 h) (List.nodup_append.1 hn).1
@@ -255,7 +265,19 @@ theorem C28_dup_sound (d : Decls) (h : hasDup (compileSyms d).errs = true) :
       · simp only [hemp]
         exact List.mem_map_of_mem hn
 
-example : hasDup (compileSyms ⟨[(cs ['a'], [])], [cs ['i','n','p','u','t'], cs ['A']], false⟩).errs = true := by
+example : hasDup (compileSyms ⟨[(cs ['a'], [])], [cs ['i','n','p','u','t'], cs ['A']], false, none, []⟩).errs = true := by
   decide
+
+/-- Concrete failure of duplicate detection (confirmed on the real `compiler.Compile`): the terminal
+`u_1` and the mid-rule nonterminal `u$1` of `u : a { … } b c ;` both get the ID `U_1`, no error. -/
+theorem C28_midrule_bad_witness :
+    let d : Decls := ⟨[(cs ['a'], []), (cs ['u','_','1'], [])], [cs ['i','n','p','u','t'], cs ['u']],
+      false, none, [cs ['u','$','1']]⟩
+    ¬ (allIds d).Nodup ∧ (compileSyms d).errs = [] ∧
+      ¬ ((compileSyms d).syms.map (·.id)).Nodup ∧ ¬ C28_dup_detect_full := by
+  refine ⟨by decide, by decide, by decide, ?_⟩
+  intro h
+  exact absurd (h ⟨[(cs ['a'], []), (cs ['u','_','1'], [])], [cs ['i','n','p','u','t'], cs ['u']],
+    false, none, [cs ['u','$','1']]⟩ (by decide)) (by decide)
 
 end TmVerif.Ident
